@@ -48,7 +48,7 @@ def cases(tier, seed):
         yield "rq.balanced", {"n": n, "mode": mode, "px": px, "table": table, "wexp": wexp,
                               "wname": rng.choice(NAMES), "divisive": rng.choice(["None", "True", "False"]),
                               "as_true": False, "chunk": rng.choice([1, 3, 10 ** 7]), "open": ["handle", "path", "uri"][k % 3],
-                              "wins": wins[:40], **({"at": "/a/b"} if k % 3 == 1 else {})}
+                              "wins": wins[:40], **({"at": "/a/b"} if k % 3 == 1 else {}), "prior": k % 4 == 1}
     # missing weight column must be an error, for every form; also balance=True without a 'weight' column
     for k in range(6 if tier == "quick" else 40):
         mode = rng.choice(["symm", "square"])
